@@ -62,7 +62,13 @@ def differential(R, names, budget):
         if name in ('_sum_if', '_countifs', '_sumifs', '_averageifs', '_iferror'):
             pool = lists + lam + [1, 'a']
         for ar in range(arity, min(maxar, 4) + 1):
-            combos = itertools.product(pool, repeat=ar)
+            total = len(pool) ** ar
+            if total <= budget:
+                combos = itertools.product(pool, repeat=ar)
+            else:
+                # the space is larger than the budget: sample it uniformly (seeded) instead of taking a prefix in which the first
+                # argument never changes
+                combos = (tuple(R.rng.choice(pool) for _ in range(ar)) for _ in range(budget))
             for k, args in enumerate(combos):
                 if k >= budget:
                     break
